@@ -311,6 +311,35 @@ def enumerate_items(interp, m: MapV):
     return SeqV(items, et, False)
 
 
+# ------------------------------------------------------------------------------------------------ ordered dict, symbolic key identity
+class ODictV:
+    """python dict of CONCRETE size whose keys are objects with SYMBOLIC identity: an insertion-ordered association list of
+    (key object, key term, value).  `keyfn(obj)` gives the z3 term the key is hashed/compared by (python dicts key on __eq__/__hash__);
+    lookups fork on the equality of key terms.  Values are ordinary values (mutable ones alias as in python)."""
+
+    def __init__(self, keyfn, entries=None):
+        self.keyfn = keyfn
+        self.entries = list(entries or [])
+
+    def snapshot(self):
+        snap = lambda x: x.snapshot() if hasattr(x, "snapshot") else (tuple(snap(y) for y in x) if isinstance(x, tuple) else x)
+        return ODictV(self.keyfn, [(snap(k), t, snap(v)) for k, t, v in self.entries])
+
+    def find(self, interp, key):
+        kt = self.keyfn(key)
+        for i, (_, t, _) in enumerate(self.entries):
+            if interp.ctx.branch(t == kt):
+                return i
+        return None
+
+    def concretize_value(self, world, model):
+        from .engine import concretize
+        return {"__odict__": [[concretize(world, k, model), concretize(world, v, model)] for k, _, v in self.entries]}
+
+    def __repr__(self):
+        return f"ODictV({[(k, v) for k, _, v in self.entries]})"
+
+
 # ------------------------------------------------------------------------------------------------ in-place havoc (loop `modifies`)
 def havoc_in_place(interp, v, name):
     """replace the CONTENTS of a mutable object by arbitrary values, keeping its identity (objects mutated through calls inside
@@ -367,6 +396,8 @@ def _make_xinterp():
 
         # ---- truthiness / equality / isinstance / attributes
         def truthy(self, v):
+            if isinstance(v, ODictV):
+                return len(v.entries) > 0
             if isinstance(v, MapV):
                 return map_nonempty(v)
             if isinstance(v, UnionV):
@@ -388,6 +419,9 @@ def _make_xinterp():
                 return union_getattr(self, obj, attr, node)
             if isinstance(obj, (MapItems, TypeOfV)):
                 raise Unsupp(f"attribute {attr} of {obj!r}")
+            if isinstance(obj, ODictV):
+                from .engine import BoundMethod
+                return BoundMethod(obj, attr)
             return super().getattr(obj, attr, node)
 
         def b_type(self, args, kw, node):
@@ -401,7 +435,12 @@ def _make_xinterp():
             return super().type_of(v)
 
         # ---- maps
-        def index(self, obj, idx, node=None):
+        def _index_maps(self, obj, idx, node=None):
+            if isinstance(obj, ODictV):
+                i = obj.find(self, idx)
+                if i is None:
+                    raise RaiseExc("KeyError", node)
+                return obj.entries[i][2]
             if isinstance(obj, DMapV):
                 return dmap_getitem(self, obj, idx)
             if isinstance(obj, MapV) and getattr(obj, "keyfn", None) is not None:
@@ -416,6 +455,14 @@ def _make_xinterp():
                 obj = self.eval(t.value, env)
                 if isinstance(obj, MapV):
                     map_setitem(self, obj, self.eval(t.slice, env), v)
+                    return
+                if isinstance(obj, ODictV):
+                    key = self.eval(t.slice, env)
+                    i = obj.find(self, key)
+                    if i is None:
+                        obj.entries.append((key, obj.keyfn(key), v))
+                    else:
+                        obj.entries[i] = (obj.entries[i][0], obj.entries[i][1], v)      # the first key object is kept, as in python
                     return
             return super().assign(t, v, env)
 
@@ -432,11 +479,15 @@ def _make_xinterp():
             return super().s_AugAssign(s, env)
 
         def binop(self, op, a, b, node=None):
+            if isinstance(a, str) and isinstance(b, str) and isinstance(op, ast.Add):
+                return a + b
             if isinstance(a, MapV) or isinstance(b, MapV):
                 return map_binop(self, op, a, b, node)
             return super().binop(op, a, b, node)
 
         def contains(self, container, x):
+            if isinstance(container, ODictV):
+                return container.find(self, x) is not None
             if isinstance(container, MapV) and getattr(container, "keyfn", None) is not None:
                 return z3.Select(container.dom, map_key(self.world, container, x))
             return super().contains(container, x)
@@ -453,6 +504,24 @@ def _make_xinterp():
             return super().builtin(name, args, kwargs, node)
 
         def method_of_builtin(self, o, name, args, kw, node):
+            if isinstance(o, str) and name == "join" and len(args) == 1:
+                parts = self.iter_concrete(args[0])
+                if all(isinstance(x, str) for x in parts):
+                    return o.join(parts)
+            if isinstance(o, str) and name == "format" and all(isinstance(x, (int, str)) and not isinstance(x, bool) for x in args) \
+                    and all(isinstance(x, (int, str)) for x in kw.values()):
+                return o.format(*args, **kw)
+            if isinstance(o, ODictV):
+                if name == "items" and not args:
+                    return PyList([(k, v) for k, _, v in o.entries])
+                if name == "values" and not args:
+                    return PyList([v for _, _, v in o.entries])
+                if name == "keys" and not args:
+                    return PyList([k for k, _, _ in o.entries])
+                if name == "get":
+                    i = o.find(self, args[0])
+                    return o.entries[i][2] if i is not None else (args[1] if len(args) > 1 else None)
+                raise Unsupp(f"method {name} of an ordered dict with symbolic keys")
             if isinstance(o, MapV):
                 r = map_method(self, o, name, args, kw, node)
                 if r is not NotImplemented:
@@ -460,6 +529,8 @@ def _make_xinterp():
             return super().method_of_builtin(o, name, args, kw, node)
 
         def b_len(self, args, kw, node):
+            if isinstance(args[0], ODictV):
+                return len(args[0].entries)
             if isinstance(args[0], MapV):
                 raise Unsupp("len of a symbolic map (cardinality is not modelled)")
             return super().b_len(args, kw, node)
@@ -468,7 +539,20 @@ def _make_xinterp():
             r = dictcomp_over_items(self, n, env)
             if r is not NotImplemented:
                 return r
-            return super().e_DictComp(n, env)
+            pairs = self.comp(n, env, lambda e: (self.eval(n.key, e), self.eval(n.value, e)))
+            if all(isinstance(k, (str, int)) for k, _ in pairs):
+                return dict(pairs)
+            if all(is_intlike(k) for k, _ in pairs):
+                # keys with symbolic identity (integers): an insertion-ordered association list, lookups fork on key equality
+                d = ODictV(to_int_term)
+                for k, v in pairs:
+                    i = d.find(self, k)
+                    if i is None:
+                        d.entries.append((k, to_int_term(k), v))
+                    else:
+                        d.entries[i] = (d.entries[i][0], d.entries[i][1], v)
+                return d
+            raise Unsupp("dict comprehension with keys of this kind")
 
         def s_For(self, s, env):
             # for k, v in m.items(): ...   over a symbolic map: iterate SOME enumeration of its items (loop contract required)
@@ -479,6 +563,66 @@ def _make_xinterp():
                     ordinal = self.next_loop()
                     return self.sym_for(s, env, enumerate_items(self, base), ordinal)
             return super().s_For(s, env)
+
+        # ---- ordered dicts with symbolic key identity (ODictV): created by an EMPTY dict literal when the contract supplies a key
+        # function through extra_builtins["odict_keyfn"]
+        def e_Dict(self, n, env):
+            kf = self.world.extra_builtins.get("odict_keyfn")
+            if kf is not None and not n.keys:
+                return ODictV(lambda obj, kf=kf, it=self: kf(it, [obj], {}))
+            return super().e_Dict(n, env)
+
+        def iter_concrete(self, v):
+            if isinstance(v, ODictV):
+                return [k for k, _, _ in v.entries]
+            return super().iter_concrete(v)
+
+        # ---- CONCRETE strings are operated on by python itself (indexing, +, join, format, str(), int(s, base)); additive: these
+        # cases were refused or opaque before.  Dictionaries: `del d[k]`, comprehensions with symbolic keys (-> ODictV)
+        def index(self, obj, idx, node=None):
+            if isinstance(obj, str) and isinstance(idx, int) and not isinstance(idx, bool):
+                if -len(obj) <= idx < len(obj):
+                    return obj[idx]
+                raise RaiseExc("IndexError", node)
+            return self._index_maps(obj, idx, node)
+
+        def b_str(self, args, kw, node):
+            if len(args) == 1 and isinstance(args[0], (int, str)) and not isinstance(args[0], bool) and "str" not in self.world.extra_builtins:
+                return str(args[0])
+            return super().b_str(args, kw, node)
+
+        def b_int(self, args, kw, node):
+            if len(args) == 2 and isinstance(args[0], str) and isinstance(args[1], int):
+                try:
+                    return int(args[0], args[1])
+                except ValueError:
+                    raise RaiseExc("ValueError", node) from None
+            return super().b_int(args, kw, node)
+
+        def s_Delete(self, s, env):
+            rest = []
+            for t in s.targets:
+                if isinstance(t, ast.Subscript) and not isinstance(t.slice, ast.Slice):
+                    obj = self.eval(t.value, env)
+                    if isinstance(obj, dict) or isinstance(obj, ODictV):
+                        key = self.eval(t.slice, env)
+                        if isinstance(obj, dict):
+                            if not isinstance(key, (str, int)):
+                                raise Unsupp("del of a symbolic key of a concrete dict")
+                            if key not in obj:
+                                raise RaiseExc("KeyError", s)
+                            del obj[key]
+                        else:
+                            i = obj.find(self, key)
+                            if i is None:
+                                raise RaiseExc("KeyError", s)
+                            del obj.entries[i]
+                        continue
+                rest.append(t)
+            if rest:
+                s2 = ast.Delete(targets=rest)
+                ast.copy_location(s2, s)
+                return super().s_Delete(s2, env)
 
         # ---- strings: contracts may give f-strings a meaning (labels built from symbolic parts)
         def e_JoinedStr(self, n, env):
